@@ -153,6 +153,46 @@ def coding_fn(strand, flavor, table):
     return fn
 
 
+def coding2_fn(strand, table):
+    """two-exon transcript whose CDS covers both exons (two NON-adjacent CDS blocks), consistent frames from start frame f0"""
+    from harness.cdsmodel import consistent_frames
+
+    def fn(es, l0, l1, f0):
+        es, l0, l1, f0 = concretize(es, l0, l1, f0)
+        with untraced():
+            g = 3
+            ex = [(es, es + l0), (es + l0 + g, es + l0 + g + l1)]
+            frames = consistent_frames([l0, l1], strand, f0)
+            par = lambda: chrom_parent(GENOME)  # noqa: E731
+            tx = TranscriptInterval([e[0] for e in ex], [e[1] for e in ex], strand, [e[0] for e in ex], [e[1] for e in ex], [CDSFrame(f) for f in frames],
+                                    transcript_id="tx1", sequence_name="chr1", parent_or_seq_chunk_parent=par())
+            gene = GeneInterval([tx], gene_id="gid", gene_symbol="sym", gene_type=Biotype.protein_coding, sequence_name="chr1",
+                                parent_or_seq_chunk_parent=par())
+            with warnings.catch_warnings():
+                warnings.simplefilter("ignore")
+                text = "\n".join(str(o) for o in TblGene(gene, "lab", "LT_5", TABLES[table]))
+            feats = read_tbl(text)
+            if feats is None or [f[0] for f in feats] != ["gene", "mRNA", "CDS"]:
+                return False
+            codons = ref_codon_positions([e[0] for e in ex], [l0, l1], strand, frames)
+            if not codons:
+                return True
+            cstr = codon_strings(codons, GENOME, strand)
+            five = cstr[0] not in START_CODONS[table]
+            three = ((l0 + l1 - f0) % 3 != 0) or cstr[-1] not in ("TAA", "TAG", "TGA")
+            pseudo = "*" in ref_translate(cstr, 0, False)[:-1]
+            pairs = [[str(a), str(b)] for a, b in expected_intervals(ex, strand)]
+            if five:
+                pairs[0][0] = "<" + pairs[0][0]
+            if three:
+                pairs[-1][1] = ">" + pairs[-1][1]
+            cds = feats[2]
+            return cds[1] == [tuple(p) for p in pairs] and cds[2].get("codon_start") == [str(f0 + 1)] and (("pseudo" in cds[2]) == pseudo) \
+                and feats[1][1] == [tuple(p) for p in pairs]
+
+    return fn
+
+
 def coding_pre(es, el, co, cl, frame):
     return (0 <= es and es <= 2 and es + el <= 48 and 0 <= co and co <= 2 and 0 <= frame and frame <= 2
             and cl >= 3 + frame and cl <= 30 and (el - co - cl == 0 or el - co - cl == 2))
@@ -270,6 +310,13 @@ def obligations(tier):
                                     "codon_start = start frame + 1, pseudo <=> in-frame stop, locus tag" % table,
                                bounds="48-nt genome, transcript start 0..2, CDS offset 0..2, CDS length 3..30, 3' UTR 0 or 2, 3 start frames (realised)",
                                examples=[dict(es=0, el=11, co=2, cl=9, frame=0), dict(es=0, el=14, co=2, cl=10, frame=1)]))
+        for table in ((11,) if quick else (0, 1, 11)):
+            out.append(Obl("coding_two_exons_%s_table%d" % (sn, table), coding2_fn(strand, table), dict(es=int, l0=int, l1=int, f0=int),
+                           lambda es, l0, l1, f0: 0 <= es and es <= 2 and 4 <= l0 and l0 <= 9 and 4 <= l1 and l1 <= 9 and 0 <= f0 and f0 <= 2,
+                           budget=340, cost=60,
+                           desc="two-exon coding transcript (two non-adjacent CDS blocks, consistent frames): codon_start = START frame + 1 (frame of the 5' "
+                                "block, whichever strand), partial marks and pseudo per the reading-frame model, both blocks listed 5'->3'",
+                           bounds="48-nt genome, start 0..2, exon lengths 4..9 each, start frames 0..2 (realised)", examples=[dict(es=1, l0=4, l1=8, f0=0)]))
         out.append(Obl("adjacent_cds_blocks_%s" % sn, adjacent_cds_fn(strand), dict(cs=int, l0=int, l1=int),
                        lambda cs, l0, l1: 2 <= cs and cs <= 5 and 3 <= l0 and l0 <= 8 and 3 <= l1 and l1 <= 8, budget=300, cost=60,
                        desc="a CDS given as adjacent blocks is exported as one merged interval (single- and multi-exon transcripts)",
